@@ -8,6 +8,8 @@
          C19_query_statement            exact JSON, both spellings            REFUTED (F12; also F12b, F12c)
          C19_typing_statement           path + term-level clause only         REFUTED (F12b)
          C19_nesting_statement          nested wrapper only                   REFUTED (F12)
+         C19_nesting_registered_statement   nested wrapper, under the structural F12 guard anchor_registered
+                                                                               REFUTED (F12c: two document types)
          C19_query_partial_statement    the SAME exact statement under executable guards       proved
                                         (coherent, walk_sane, subfield_ok = F12b guard, anchor_survives = F12/F12c guard)
          C19_nesting_partial_statement  the nested wrapper, under walk_sane + anchor_survives   proved
@@ -145,6 +147,31 @@ Proof.
               (dotted_q_spelling _ _) Eb) as [p Hj].
   vm_compute in E. injection E as <- <-. vm_compute in Eb. injection Eb as <-.
   destruct p; vm_compute in Hj; discriminate Hj.
+Qed.
+
+(* F12c as a theorem.  The nesting clause again, now under the structural guard that removes F12
+   (`anchor_registered anc`: the innermost nested ancestor has a direct child below which there is no nested
+   field with properties): still false — with two document types a LATER re-declaration of the nested field
+   without properties wipes the children recorded for it.  Witness w_f12c / n1.n2.h (replayed on the real code:
+   the wrapper is nested{path n1} instead of n1.n2). *)
+Definition C19_nesting_registered_statement : Prop :=
+  forall s comps d anc x t j,
+    wf_schema s = true -> mapped_leaf s comps d anc -> anchor_registered anc = true ->
+    has_wildcard x = false -> spelling comps x t ->
+    build (options s) t = ROk j ->
+    exists b, j = wrap_nested (innermost_nested_ancestor anc) (clause (dotted comps) b x).
+
+Theorem C19_nesting_registered_refuted : ~ C19_nesting_registered_statement.
+Proof.
+  intros H.
+  destruct (resolved w_f12c c_f12c) as [[d anc]|] eqn:E; [|vm_compute in E; discriminate E].
+  assert (Hl : is_leaf_def d = true) by (vm_compute in E; injection E as <- <-; reflexivity).
+  assert (Hr : anchor_registered anc = true) by (vm_compute in E; injection E as <- <-; reflexivity).
+  destruct (build (options w_f12c) (dotted_q c_f12c w_x)) as [j|e] eqn:Eb; [|vm_compute in Eb; discriminate Eb].
+  destruct (H w_f12c c_f12c d anc w_x (dotted_q c_f12c w_x) j eq_refl (resolved_mapped _ _ _ _ E Hl) Hr eq_refl
+              (dotted_q_spelling _ _) Eb) as [b Hj].
+  vm_compute in E. injection E as <- <-. vm_compute in Eb. injection Eb as <-.
+  destruct b; vm_compute in Hj; discriminate Hj.
 Qed.
 
 (* ================================================================ partial results: the typing clause *)
@@ -427,7 +454,70 @@ Example ex_guards_findings :
   all_guards w_f12c c_f12c = (true, true, true, true, false).
 Proof. repeat split; vm_compute; reflexivity. Qed.
 
+(* non-vacuity of C19_query_partial on a LEGACY description with two document types (mappings = {d1: {properties:
+   ...}, d2: {properties: ...}}, types "string" with index "not_analyzed"):
+     d1: n1 (nested) -> { h: string, k: string not_analyzed }, title: string
+     d2: au (object) -> { name: string not_analyzed },          title: string
+   every guard holds, for a leaf of the first and for a leaf of the SECOND document type, and the theorem (not a
+   computation) gives the exact JSON in the chain spelling: n1:(k:x) -> nested{path n1}{term n1.k};
+   au:(name:x) -> term au.name  (replayed on the real code) *)
+Definition s_n1 : str := [110;49]%N.
+Definition s_au : str := [97;117]%N.
+Definition s_name : str := [110;97;109;101]%N.
+Definition g_legacy2 : schema :=
+  mkSchema None (mkMappings None
+    [([100;49]%N, Some [(s_n1, FDef (Some k_nested) None []
+                                 [([104]%N, FDef (Some k_string) None [] []);
+                                  ([107]%N, FDef (Some k_string) (Some k_not_analyzed) [] [])]);
+                        ([116;105;116;108;101]%N, FDef (Some k_string) None [] [])]);
+     ([100;50]%N, Some [(s_au, FDef (Some k_object) None []
+                                 [(s_name, FDef (Some k_string) (Some k_not_analyzed) [] [])]);
+                        ([116;105;116;108;101]%N, FDef (Some k_string) None [] [])])]).
+Definition c_n1k : list str := [s_n1; [107]%N].                                (* n1.k, document type d1 *)
+Definition c_auname : list str := [s_au; s_name].                              (* au.name, document type d2 *)
+
+Example ex_query_partial_two_doctypes :
+  length (doc_props g_legacy2) = 2 /\
+  wf_schema g_legacy2 = true /\ coherent g_legacy2 = true /\ walk_sane g_legacy2 = true /\
+  (exists d anc, mapped_leaf g_legacy2 c_n1k d anc /\ subfield_ok anc d = true /\
+                 anchor_survives g_legacy2 anc = true /\
+                 build (options g_legacy2) (chain_q c_n1k w_x) = ROk (expected_json c_n1k d anc w_x) /\
+                 expected_json c_n1k d anc w_x = wrap_nested (Some s_n1) (clause (dotted c_n1k) true w_x)) /\
+  (exists d anc, mapped_leaf g_legacy2 c_auname d anc /\ subfield_ok anc d = true /\
+                 anchor_survives g_legacy2 anc = true /\
+                 build (options g_legacy2) (chain_q c_auname w_x) = ROk (expected_json c_auname d anc w_x) /\
+                 expected_json c_auname d anc w_x = clause (dotted c_auname) true w_x).
+Proof.
+  split; [reflexivity|]. split; [reflexivity|]. split; [reflexivity|]. split; [vm_compute; reflexivity|].
+  assert (Hws : walk_sane g_legacy2 = true) by (vm_compute; reflexivity).
+  assert (Hm : forall props comps d anc, In props (doc_props g_legacy2) ->
+                 resolve props [] comps = Some (d, anc) -> is_leaf_def d = true -> mapped_leaf g_legacy2 comps d anc).
+  { intros props comps d anc Hin Hr Hl. exists props. auto. }
+  split.
+  - destruct (resolve (nth 0 (doc_props g_legacy2) []) [] c_n1k) as [[d anc]|] eqn:E; [|vm_compute in E; discriminate E].
+    assert (Hml : mapped_leaf g_legacy2 c_n1k d anc).
+    { apply (Hm (nth 0 (doc_props g_legacy2) [])); [left; reflexivity|exact E|].
+      vm_compute in E. injection E as <- <-. reflexivity. }
+    assert (Hs : subfield_ok anc d = true) by (vm_compute in E; injection E as <- <-; reflexivity).
+    assert (Ha : anchor_survives g_legacy2 anc = true) by (vm_compute in E; injection E as <- <-; vm_compute; reflexivity).
+    exists d, anc. split; [exact Hml|]. split; [exact Hs|]. split; [exact Ha|]. split.
+    + apply (C19_query_partial g_legacy2 c_n1k d anc w_x _ eq_refl eq_refl Hws Hml Hs Ha eq_refl eq_refl eq_refl).
+      right. apply chain_q_chain. discriminate.
+    + vm_compute in E. injection E as <- <-. reflexivity.
+  - destruct (resolve (nth 1 (doc_props g_legacy2) []) [] c_auname) as [[d anc]|] eqn:E; [|vm_compute in E; discriminate E].
+    assert (Hml : mapped_leaf g_legacy2 c_auname d anc).
+    { apply (Hm (nth 1 (doc_props g_legacy2) [])); [right; left; reflexivity|exact E|].
+      vm_compute in E. injection E as <- <-. reflexivity. }
+    assert (Hs : subfield_ok anc d = true) by (vm_compute in E; injection E as <- <-; reflexivity).
+    assert (Ha : anchor_survives g_legacy2 anc = true) by (vm_compute in E; injection E as <- <-; vm_compute; reflexivity).
+    exists d, anc. split; [exact Hml|]. split; [exact Hs|]. split; [exact Ha|]. split.
+    + apply (C19_query_partial g_legacy2 c_auname d anc w_x _ eq_refl eq_refl Hws Hml Hs Ha eq_refl eq_refl eq_refl).
+      right. apply chain_q_chain. discriminate.
+    + vm_compute in E. injection E as <- <-. reflexivity.
+Qed.
+
 Print Assumptions C19_builder_side.
+Print Assumptions C19_nesting_registered_refuted.
 Print Assumptions C19_spellings_agree.
 Print Assumptions C19_query_partial.
 Print Assumptions C19_nesting_partial.
